@@ -599,7 +599,7 @@ package sam
 //@     invariant forall(j, 0, range_i, pair.ref[j] == EA[pre(1, pair.ref[j])]) && forall(j, range_i, len(pair.ref), pair.ref[j] == pre(1, pair.ref[j]))
 //@   before call:GetVariantsPair#1: assert [c11.args] pair == recv(cAlignPair)[range_i] && forall(j, 0, len(pair.ref), pair.ref[j] == EA[pre(1, pair.ref[j])] && pair.query[j] == EA[pre(1, pair.query[j])])
 //@   before call:GetVariantsPair#1: assert [c11.offsets] len(offsetMSACoord) == len(pair.ref) && forall(j, 0, len(pair.ref), implies(pair.ref[j] != 244, offsetMSACoord[j] == count(k, 0, j, pair.ref[k] == 244)) && implies(pair.ref[j] == 244, offsetMSACoord[j] == 0))
-//@   before call:GetVariantsPair#1: assert [hint.bases] uselemma(EA_gap) && countsame(k, 0, len(pair.ref), pair.ref[k] != 244, pre(1, pair.ref[k]) != '-') && len(offsetRefCoord) == count(k, 0, len(pair.ref), pre(1, pair.ref[k]) != '-')
+//@   before call:GetVariantsPair#1: assert [hint.bases] forallb(c, (EA[c] == 244) == (c == '-')) && countsame(k, 0, len(pair.ref), pair.ref[k] != 244, pre(1, pair.ref[k]) != '-') && len(offsetRefCoord) == count(k, 0, len(pair.ref), pre(1, pair.ref[k]) != '-')
 //@   before call:GetVariantsPair#1: assert [c11.wiring] sameslice(arg(0), pair.ref) && sameslice(arg(1), pair.query) && arg(2) == pair.refname && arg(3) == pair.queryname && arg(4) == pair.idx && sameslice(arg(5), cdsregions) && sameslice(arg(6), intregions) && sameslice(arg(7), offsetRefCoord) && sameslice(arg(8), offsetMSACoord)
 //@   before call:GetMSAOffsets#1: assert [c11.offsets.of] sameslice(arg(0), pair.ref)
 //@   before send#2: assert [c11.forward] err == nil && AS.Queryname == pair.queryname && AS.Idx == pair.idx
